@@ -1,3 +1,4 @@
+import PdtVerif.Model.EpochSampler
 /-!
 # Model of the batching layer of `_dataloaders.py` (+ `_datasets.py::extract_window`)
 
@@ -23,6 +24,11 @@ Follows the code:
 Python dictionaries are association lists with `Nat` keys (`dget`/`dput`/`ddel`); the
 insertion order of a dictionary is not observable in this code (the flush sorts by key,
 the length is a sum). Tensors are lists; a 2-D tensor is a list of rows.
+
+* the loader objects (`LangDataLoader`, `SpectDataLoader`, `ContextWindowDataLoader`) as far as
+  batching goes: constructor arguments + the epoch sampler object (C13's model, imported
+  read-only) whose `epoch` attribute is the only mutable state; `iter(loader)`, `len(loader)`,
+  `loader.epoch = e`.
 
 No Mathlib imports here: this file is also used by the driver.
 -/
@@ -236,6 +242,77 @@ def loaderLen (lens : List Nat) (nb B : Nat) (dynamic drop : Bool) (order : List
     | .ok p => samplerLen (fun i => p.idx2bucket[i]?) (fun h => p.sizes[h]?) drop order
   else .ok (plainLen B drop order.length)
 
+/-! ## The loader object: epochs, `len()`, `loader.epoch = e` -/
+
+/-- The constructor arguments that decide the batching (`lens[i]` = length of utterance `i` along
+the bucketed axis, `nb = num_length_buckets`, `B = batch_size`). -/
+structure LoaderCfg where
+  lens : List Nat
+  nb : Nat
+  B : Nat
+  dynamic : Bool
+  drop : Bool
+  deriving Repr
+
+/-- A loader object. Everything is fixed at construction except the sampler's epoch counter
+(`loader.epoch` is a property that reads / writes `batch_sampler.sampler.epoch`). -/
+structure Loader where
+  cfg : LoaderCfg
+  sampler : EpochSampler.State
+  deriving Repr
+
+/-- The `on_uneven_distributed` value the constructors hand to the epoch sampler:
+`ContextWindowDataLoader` always passes `'ignore'`; the other two pass `'drop'` when
+`params.drop_last` is set and the caller's value otherwise. -/
+def samplerMode (contextWindow drop : Bool) (onUneven : EpochSampler.Mode) : EpochSampler.Mode :=
+  if contextWindow then .ignore else if drop then .drop else onUneven
+
+/-- `Loader.__init__`: `none` = the sampler's `ValueError` (`on_uneven_distributed='raise'` and a
+world size that does not divide the data set). -/
+def Loader.new (cfg : LoaderCfg) (mode : EpochSampler.Mode) (dist : Option (Nat × Nat))
+    (initEpoch : Nat) : Option Loader :=
+  (EpochSampler.init cfg.lens.length mode dist).map (fun c => ⟨cfg, ⟨c, initEpoch⟩⟩)
+
+/-- `loader.epoch`. -/
+def Loader.epoch (l : Loader) : Nat := l.sampler.epoch
+
+/-- `loader.epoch = e`. -/
+def Loader.setEpoch (l : Loader) (e : Nat) : Loader := { l with sampler := { l.sampler with epoch := e } }
+
+/-- One full `for batch in loader` pass: the batch sampler iterates the epoch sampler (which
+yields the current epoch's share of `perm epoch` and bumps its counter) and groups the indices. -/
+def Loader.serve (perm : Nat → List Nat) (l : Loader) :
+    Except Err (List (List Nat) × Option Err) × Loader :=
+  let r := EpochSampler.iter perm l.sampler
+  (loaderBatches l.cfg.lens l.cfg.nb l.cfg.B l.cfg.dynamic l.cfg.drop r.1, { l with sampler := r.2 })
+
+/-- `len(loader)` = `_get_batch_sampler_len(loader.batch_sampler)`: for a `BucketBatchSampler` a
+`Counter` over `sampler.get_samples_for_epoch(sampler.epoch)`; otherwise `len(BatchSampler)`,
+computed from `len(sampler)` (C13's closed formula). -/
+def Loader.len (perm : Nat → List Nat) (l : Loader) : Except Err Nat :=
+  if l.cfg.nb > 1 then
+    match bucketParams l.cfg.lens l.cfg.nb l.cfg.B l.cfg.dynamic with
+    | .error e => .error e
+    | .ok p => samplerLen (fun i => p.idx2bucket[i]?) (fun h => p.sizes[h]?) l.cfg.drop
+        (EpochSampler.samples l.sampler.cfg (perm l.sampler.epoch))
+  else .ok (plainLen l.cfg.B l.cfg.drop (EpochSampler.len l.sampler.cfg).toNat)
+
+/-- What a training script does with the object. -/
+inductive Op where
+  | serve            -- a full pass over the loader
+  | setEpoch (e : Nat)   -- `loader.epoch = e`
+  deriving Repr
+
+/-- Run a sequence of operations; returns what every `serve` delivered and the final object. -/
+def Loader.exec (perm : Nat → List Nat) :
+    List Op → Loader → List (Except Err (List (List Nat) × Option Err)) × Loader
+  | [], l => ([], l)
+  | .serve :: ops, l =>
+    let r := l.serve perm
+    let rest := Loader.exec perm ops r.2
+    (r.1 :: rest.1, rest.2)
+  | .setEpoch e :: ops, l => Loader.exec perm ops (l.setEpoch e)
+
 /-! ## Collation -/
 
 /-- Insert before the first element whose key is not strictly larger: a stable descending
@@ -268,6 +345,12 @@ def langCollate {β ι} (pad : β) (sort : Bool) (items : List (List β × ι)) 
   let s := if sort then sortDesc (fun it => it.1.length) items else items
   (padSequence pad (s.map (·.1)), s.map (·.1.length), s.map (·.2))
 
+/-- `lang_seq_to_batch(.., batch_first=False)`: the same arrangement, `refs` laid out `[t][n]`. -/
+def langCollateTF {β ι} (pad : β) (sort : Bool) (items : List (List β × ι)) :
+    List (List β) × List Nat × List ι :=
+  let s := if sort then sortDesc (fun it => it.1.length) items else items
+  (padSequenceTF pad (s.map (·.1)), s.map (·.1.length), s.map (·.2))
+
 /-- One element of a `SpectDataSet`. -/
 structure SpectItem (φ α ρ ι : Type) where
   feat : List φ
@@ -299,6 +382,20 @@ def spectCollate {φ α ρ ι} (padF : φ) (padA : α) (padR : ρ) (sort : Bool)
   { feats := padSequence padF (s.map (·.feat))
     alis := alis.map (padSequence padA)
     refs := refs.map (padSequence padR)
+    featSizes := s.map (·.feat.length)
+    refSizes := refs.map (fun r => r.map List.length)
+    uttids := s.map (·.uttid) }
+
+/-- `spect_seq_to_batch(.., batch_first=False)`: the same arrangement, every padded member laid
+out `[t][n]`. -/
+def spectCollateTF {φ α ρ ι} (padF : φ) (padA : α) (padR : ρ) (sort : Bool)
+    (items : List (SpectItem φ α ρ ι)) : SpectBatch φ α ρ ι :=
+  let s := if sort then sortDesc (fun it => it.feat.length) items else items
+  let alis := allSome (s.map (·.ali))
+  let refs := allSome (s.map (·.ref))
+  { feats := padSequenceTF padF (s.map (·.feat))
+    alis := alis.map (padSequenceTF padA)
+    refs := refs.map (padSequenceTF padR)
     featSizes := s.map (·.feat.length)
     refSizes := refs.map (fun r => r.map List.length)
     uttids := s.map (·.uttid) }
